@@ -120,6 +120,8 @@ class Setup:
                 s._stock_by_cohort = symnp.SymArr.input("old_sbc" + tag, tuple([self.n, self.n] + self.esizes))
                 s._outflow_by_cohort = symnp.SymArr.input("old_obc" + tag, tuple([self.n, self.n] + self.esizes))
             self.s = s
+            if kind != "flow":
+                self._table_versions = [(a, a._buf.version) for a in (self.sf, self.pdf) if hasattr(a, "_buf")]
         else:
             import numpy as np
             from flodym.dimensions import Dimension, DimensionSet
@@ -238,6 +240,35 @@ class Setup:
 
     def extra_ranges(self):
         return [(0, e) for e in self.esizes]
+
+
+def check_lifetime_tables_unchanged(W, S, name):
+    """compute() only reads the survival and outflow-probability tables of the lifetime model it was given (the
+    model may be shared with other stocks and is asked for its tables again later)"""
+    if S.kind == "flow":
+        return
+    if W.symbolic:
+        ok = all(getattr(a, "_buf", None) is None or a._buf.version == v for a, v in getattr(S, "_table_versions", []))
+        W.prove(f"{name}.lifetime_tables_not_written", ok, kind="frame", detail="a survival / outflow table of the lifetime model was written to")
+    else:
+        import numpy as np
+
+        lm = S.s.lifetime_model
+        ok = bool(np.array_equal(np.array(lm.sf), S.sf, equal_nan=True)) and bool(np.array_equal(np.array(lm.pdf), S.pdf, equal_nan=True))
+        spec = getattr(S, "lifetime_spec", None)
+        if ok and spec is not None:
+            # ... and equal to the tables of an identical model that no stock has ever used
+            from flodym.lifetime_models import NormalLifetime, WeibullLifetime, LogNormalLifetime
+
+            which, mean, std = spec
+            if which == "normal":
+                fresh = NormalLifetime(dims=lm.dims, time_letter="t", mean=mean, std=std)
+            elif which == "lognormal":
+                fresh = LogNormalLifetime(dims=lm.dims, time_letter="t", mean=mean, std=std)
+            else:
+                fresh = WeibullLifetime(dims=lm.dims, time_letter="t", weibull_shape=1.0 + std, weibull_scale=mean)
+            ok = bool(np.array_equal(np.array(lm.sf), np.array(fresh.sf), equal_nan=True)) and bool(np.array_equal(np.array(lm.pdf), np.array(fresh.pdf), equal_nan=True))
+        W.prove(f"{name}.lifetime_tables_not_written", ok, kind="frame", detail="the lifetime model's tables differ from what they were before compute() / from those of an identical unused model")
 
 
 def sk_extra(tier, maxq=1, maxt=2):
@@ -447,6 +478,7 @@ def u_inflow_driven(W, sk):
     snaps = SL.snapshot(W, [s.inflow])
     out = W.call(lambda: s.compute())
     W.prove("compute.returns", out.kind == "return", detail=repr(out))
+    check_lifetime_tables_unchanged(W, S, "compute")
     if out.kind != "return":
         return
     SL.check_unchanged(W, "compute", snaps)
@@ -656,6 +688,7 @@ def u_stock_driven(W, sk):
     if out.kind != "return":
         return
     SL.check_unchanged(W, "compute(driver)", snaps)
+    check_lifetime_tables_unchanged(W, S, "compute")
     if not (SL.check_wf(W, "compute.inflow", s.inflow) and SL.check_wf(W, "compute.outflow", s.outflow)):
         return
     n = S.n
@@ -1190,7 +1223,8 @@ def u_impulse(W, sk):
 
 @unit(
     "stocks.stock_driven.label_independence",
-    props=["C16"],
+    props=["C16", "C08"],
+    only_clauses={"C08": ["*lifetime_tables_not_written"]},
     targets=["flodym.stocks.StockDrivenDSM.compute", "flodym.stocks.StockDrivenDSM._compute_cohorts_and_inflow", "flodym.stocks.StockDrivenDSM._compute_inflow_manual", "flodym.stocks.DynamicStockModel._compute_outflow"],
     skeletons=lambda tier: [{"solver": "manual"}],
     stubs=["flodym.lifetime_models.LifetimeModel.sf", "flodym.lifetime_models.LifetimeModel.pdf", "flodym.lifetime_models.UnevenTimeDim.interval_lengths", "scipy.linalg.solve_triangular"],
@@ -1219,6 +1253,7 @@ def u_label_independence_stock(W, sk):
     W.prove("labels.compute_returns", outA.kind == "return", detail=repr(outA))
     if outA.kind != "return":
         return
+    check_lifetime_tables_unchanged(W, A, "labels")
     sfa = A.rd(A.sf)
     if W.symbolic:
         pdfa = A.rd(A.pdf)
